@@ -475,8 +475,20 @@ def gen_run(rng, tier):
         if (b["kind"] == "glr" or b["opts"].get("build_tree")) and rng.random() < 0.5:
             op["mode"] = "call_actions"
         if fault:
-            op["fault"] = {"seam": rng.choice(seams), "frac": rng.random(),
+            # prefer the seams that exist in this scenario: recognizers are also
+            # called while an error is being reported (every recognizer is probed),
+            # the dynamic filter in the middle of frontiers
+            weighted = list(seams)
+            if any(sc["recognizers"]) and "recognizer" in seams:
+                weighted += ["recognizer"] * 3
+            if sc.get("dynamic") and "filter" in seams:
+                weighted += ["filter"] * 2
+            op["fault"] = {"seam": rng.choice(weighted), "frac": rng.random(),
                            "exc": rng.choice(peers.FAULT_EXC_NAMES)}
+            if any(sc["recognizers"]) and rng.random() < 0.5:
+                # an erroneous input, so that the error-reporting phase is reached
+                op["input"] = pool.gen_input(rng, sc, version=vers[b["_g"]], p_damage=1.0,
+                                             kinds=["junk", "dup", "subst", "drop"])[0]
         elif len(op["input"]) > 1 and rng.random() < 0.15:
             x = op["input"]
             r2 = rng.random()
